@@ -67,13 +67,13 @@ PROPS['C01'] = dict(
 )
 PROPS['C03'] = dict(
   level='proof',
-  verus=[dict(unit='ops', min_functions=10), dict(unit='peephole', min_functions=2)],
-  not_decided=['compile-time field numbering vs run-time Field order (Compiler::class/emit_fields), Class::inherit / meta classes, instance construction (call_class)',
-               'A-heap: class tables and instance slots are an abstract heap; A-slot'],
+  verus=[dict(unit='ops', min_functions=10), dict(unit='peephole', min_functions=2), dict(unit='klass', min_functions=4), dict(unit='calls', min_functions=1), dict(unit='ncall', min_functions=1)],
+  not_decided=['compile-time field numbering vs run-time Field order (Compiler::class/emit_fields), meta classes (meta_from_super), is_subclass (pointer recursion)',
+               'A-heap: in the ops unit the class tables are abstract functions; that a field keeps its slot and a subclass extends its parent numbering is proved in the klass unit; A-slot'],
 )
 PROPS['C13'] = dict(
   level='proof',
-  verus=[dict(unit='ops', min_functions=12)],
+  verus=[dict(unit='ops', min_functions=12), dict(unit='klass', min_functions=4)],
   not_decided=['A-slot: every slot id in live code of a module is inside that module\'s cache and belongs to one site with one name (established by Vm::compile; false for REPL entries, see C19)',
                'A-classid: a class address identifies one class for as long as it sits in a cache (GC address reuse: cache entries are not roots) — not decided'],
 )
@@ -103,14 +103,14 @@ PROPS['C20'] = dict(
 
 PROPS['C05'] = dict(
   level='proof',
-  verus=[dict(unit='gctrace', min_functions=30)],
+  verus=[dict(unit='gctrace', min_functions=30), dict(unit='klass', min_functions=2)],
   kani=[dict(crate='trace', harnesses=['proofs::o05_2_dispatch_%s' % k for k in ['channel', 'class', 'closure', 'enumerator', 'fun', 'instance', 'list', 'method', 'native', 'string', 'lybox', 'tuple']],
              kind='bounded', bound='12 of 13 object kinds (Map excluded: generic impl cannot be stubbed), one raw object per kind, unwind 15', timeout=1200, jobs=4, mem_gb=12, assumption_ids=['A-kani', 'A-stub', 'A-bound']),
         dict(crate='gc', harnesses=_GC_C05, kind='bounded', bound='one LyBox, one or two collections, unwind 4', timeout=2400, jobs=3, assumption_ids=['A-kani', 'A-stub', 'A-bound'])],
   explanation='Verus: every trace body reaches every GC-typed field of its struct (contracts generated from the real struct definitions), mark-guarded handles and the 13-kind dispatch; Kani (bounded): the real dispatch and the real Allocator sweep',
   not_decided=['root sets of Vm / Compiler (impl TraceRoot), natives\' push_root discipline, allocate/allocate_obj rooting of the in-flight object, "same output under every collection schedule"',
                'the tri-colour invariant over the whole heap (marked objects have their children traced before the sweep) is an induction over the object graph, not stated',
-               'A-alias: Class.init aliases an entry of Class.methods (exempted field)', 'ChannelWaiter.waiter (Box<dyn TraceAny>) and Value::trace itself (two cfg variants) are leaves of the model'],
+               'A-alias: Class.init aliases an entry of Class.methods (exempted field in gctrace): proved as an invariant of add_method / inherit in the klass unit under the premise that the name "init" is interned once (C09)', 'ChannelWaiter.waiter (Box<dyn TraceAny>) and Value::trace itself (two cfg variants) are leaves of the model'],
 )
 PROPS['C09'] = dict(
   level='proof',
